@@ -50,12 +50,21 @@ def check_representation(mods):
             if missing:
                 raise AnalysisError("anchor vanished: messageq_t.%s (the queue's representation changed: members now %s); the rules "
                                     "stated over the documented representation cannot decide this tree" % (", ".join(missing), ", ".join(sorted(have))))
+            # additional members: harmless when nothing depends on them (a statistic); otherwise the protocol keeps state the
+            # rules know nothing about (a batch of harvested flags, a cached cursor) and they cannot tell right from wrong
+            from .purity import write_only_member
+            extra = sorted(have - set(EXPECTED_FIELDS))
+            for f in extra:
+                if not all(write_only_member(mm, STRUCTS, f) for mm in mods):
+                    raise AnalysisError("anchor vanished: messageq_t carries additional state (%s) that its operations read: the queue's "
+                                        "representation changed and the rules stated over the documented members cannot decide this tree" % f)
             return
     raise AnalysisError("anchor vanished: messageq_t has no debug info in the analysed units")
 
 
-def mq_functions(mods):
-    check_representation(mods)
+def mq_functions(mods, check=True):
+    if check:
+        check_representation(mods)
     out = []
     for m in mods:
         for fn in m.defined_functions():
